@@ -19,7 +19,9 @@ structure Pending where
   events : List (Nat × List (List Str)) := []
 
 structure St where
+  ft : FTab := {}                          -- float oracle declared by the harness (`fdecl` lines, first in the case)
   decls : List (List Decl) := []
+  vars : List (List Var) := []             -- the declared variables (row + strict-mode schema), built at init
   h : Handler := {}
   inited : Bool := false
   implState : List (List VarObs) := []    -- last observed state of the implementation
@@ -32,39 +34,47 @@ structure St where
 def note (st : St) (s : String) : St := { st with notes := st.notes ++ [s] }
 def bad (st : St) (s : String) : St := note { st with parseOk := false } s
 
-def initObs (ds : List Decl) : List VarObs := ds.map fun d => (d.name, none, none)
+def initObs (ds : List Decl) : List VarObs := ds.map fun d => (d.name, .none, none)
 
 def ensureInit (st : St) : St :=
   if st.inited then st else
-  { st with inited := true, h := { svcs := st.decls.map fun ds => { vars := ds.map fun d => { decl := d } } },
+  let inst := st.ft.oracle
+  let vars := st.decls.map fun ds => ds.filterMap fun d => @mkVar inst d
+  let st := if (vars.map List.length) = (st.decls.map List.length) then st
+            else bad st "a declaration the model's factory rejects"
+  { st with inited := true, vars := vars, h := { svcs := vars.map fun vs => { vars := vs } },
             implState := st.decls.map initObs }
 
 def finalize (st : St) : St :=
   match st.cur with
   | none => st
   | some p =>
-    let before := st.h.svcs
-    let r := handleNotify st.h p.n p.tick
+    let inst := st.ft.oracle
+    -- the model's observation record is the very object the theorems (`c10_step`) are about
+    let mo := @modelObs inst st.h p.n p.tick
     let k := st.obs.length
-    let mRes := fmtNRes r.2
+    let mRes := fmtNRes mo.res
     let st := if mRes = p.resLine then st else note { st with corrOk := false } s!"n{k} res impl[{p.resLine}] model[{mRes}]"
     let nsvc := st.decls.length
     let st := (List.range nsvc).foldl (fun st i =>
-      let ms := fmtVarObs (svcObs (r.1.svcs.getD i { vars := [] }))
+      let ms := fmtVarObs (mo.after.getD i [])
       let is := (p.stLines.find? (·.1 == i)).map (·.2) |>.getD "?"
       let st := if ms = is then st else note { st with corrOk := false } s!"n{k} st{i} impl[{is}] model[{ms}]"
-      let newEv := ((r.1.svcs.getD i { vars := [] }).events.drop ((before.getD i { vars := [] }).events.length))
-      let me := fmtEvents newEv
+      let me := fmtEvents (mo.events.getD i [])
       let ie := (p.evLines.find? (·.1 == i)).map (·.2) |>.getD "?"
       if me = ie then st else note { st with corrOk := false } s!"n{k} ev{i} impl[{ie}] model[{me}]") st
     let after := (List.range nsvc).map fun i => (p.after.find? (·.1 == i)).map (·.2) |>.getD []
     let events := (List.range nsvc).map fun i => (p.events.find? (·.1 == i)).map (·.2) |>.getD []
     let o : NObs := { n := p.n, tick := p.tick, routedTo := p.routedTo, res := p.res,
                       before := st.implState, after := after, events := events }
-    { st with h := r.1, cur := none, implState := after, obs := o :: st.obs }
+    { st with h := (@handleNotify inst st.h p.n p.tick).1, cur := none, implState := after, obs := o :: st.obs }
 
 def stepLine (st : St) (toks : List String) : St :=
   match toks with
+  | ["factoryfail", e] => bad st s!"the factory raised {e} on a declaration the type table accepts"
+  | "fdecl" :: rest => (match st.ft.add rest with
+      | some ft => { st with ft := ft }
+      | none => bad st s!"bad fdecl {rest}")
   | "decl" :: rest => (match parseDecl rest with
       | some (i, d) => { st with decls := addDecl st.decls i d }
       | none => bad st s!"bad decl {rest}")
@@ -114,12 +124,13 @@ def main : IO UInt32 := do
         n := n + 1
         st := finalize st
         let obs := st.obs.reverse
-        let j := C10.ok st.decls obs && st.parseOk
+        let inst := st.ft.oracle
+        let j := @C10.ok inst st.vars obs && st.parseOk
         let mut notes := st.notes.take 3
         if !j then
-          match (List.range obs.length).find? (fun i => match obs[i]? with | some o => !stepOk st.decls o | none => false) with
+          match (List.range obs.length).find? (fun i => match obs[i]? with | some o => !(@stepOk inst st.vars o) | none => false) with
           | some i =>
-            let o := obs.getD i ⟨⟨⟨none, none, none⟩, []⟩, 0, none, .keyError, [], [], []⟩
+            let o := obs.getD i ⟨⟨⟨none, none, none⟩, [], false⟩, 0, none, .keyError, [], [], []⟩
             notes := notes ++ [s!"judge n{i} res={fmtNRes o.res} want-status={specStatus o.n.hdrs} routed={o.routedTo} wf={bodyWF o.n.body} after={o.after.map fmtVarObs} events={o.events.map fmtEvents}"]
           | none => pure ()
         out.putStrLn s!"case {cur} corr={if st.corrOk && st.parseOk then "ok" else "MISMATCH"} judge={if j then "ok" else "FAIL"} {" ; ".intercalate notes}"
